@@ -38,6 +38,14 @@ struct ReqFam {
 
   static const bool self_merge_ok = false;     // req_sketch::merge has no self-merge handling
   static bool convert_gap(uint32_t k, uint64_t n) { return n >= 6ULL * k; }
+  static uint32_t large_k(bool mx) { return mx ? 1024 : 512; }
+  template<typename K> static int level0_unsorted(const SK<K>& sk) {
+    const auto s = sk.to_string(false, false);
+    const std::string text(s.begin(), s.end());
+    if (text.find("Sorted         : false") != std::string::npos) return 1;
+    if (text.find("Sorted         : true") != std::string::npos) return 0;
+    return -1;
+  }
   static uint64_t exact_cap(uint32_t k) { const uint32_t ke = std::max<uint32_t>(k & ~1u, 4); return 6ULL * ke - 1; }
 
   // the sketch states its capacity in to_string(): "Capacity items : <sum of nominal compactor capacities>"
